@@ -24,6 +24,6 @@ def jobs(tier):
     for pid, pick in PICK.items():
         for j in _other(pid).jobs(tier):
             if tier in j.tiers and pick(j.name, tier):
-                j.group = f"C10.{pid}"; j.name = f"{pid}.{j.name}"; j.termination_is_property = True
+                j.group = f"C10.{pid}"; j.name = f"{pid}.{j.name}"; j.termination_is_property = True; j.defines = dict(j.defines, VF_SKIP_FINDINGS=1)
                 J.append(j)
     return J
